@@ -326,12 +326,6 @@ func skipExtension(b []byte, xi *extensionFieldInfo, num protowire.Number, wtyp 
 			return out, ValidationUnknown
 		}
 
-		if opts.Validated() {
-			out.initialized = true
-			out.n = n
-			return out, ValidationValid
-		}
-
 		out, st := xi.validation.mi.validate(v, 0, opts)
 		out.n = n
 		return out, st
